@@ -295,6 +295,10 @@ class Unmergeable(Exception):
     pass
 
 
+HEAP_STRICT = [False]
+BIGW = 320
+
+
 def same(a, b):
     if a is b:
         return True
@@ -307,11 +311,22 @@ def merge_typed(c, a, b, t):
     """value: if c then a else b, at Go type t"""
     if a is b:
         return a
+    if type(a).__name__ == 'RV' or type(b).__name__ == 'RV':
+        if type(a) is type(b) and a.t == b.t and a.ptr == b.ptr and a.val is b.val and a.canset == b.canset:
+            return a
+        raise Unmergeable()
+    if isinstance(a, Opaque) or isinstance(b, Opaque):
+        raise Unmergeable()
     x = ty(t)
     k = x['kind']
     if k == 'int':
-        if not is_sym(a) and not is_sym(b) and a == b:
-            return a
+        if not is_sym(a) and not is_sym(b):
+            if a == b:
+                return a
+            if HEAP_STRICT[0] and x.get('name') == 'int':
+                # two different CONCRETE lengths/cursors in memory: keep the paths apart rather than
+                # turning every later position into a symbolic one (a missed merge costs time, not soundness)
+                raise Unmergeable()
         if same(a, b):
             return a
         return z3.If(c, bv(a, x['bits']), bv(b, x['bits']))
@@ -326,6 +341,13 @@ def merge_typed(c, a, b, t):
     if k == 'array':
         return tuple(merge_typed(c, p, q, x['elem']) for p, q in zip(a, b))
     if k == 'slice':
+        if type(a).__name__ == 'BigMag' or type(b).__name__ == 'BigMag':
+            av = a.v if type(a).__name__ == 'BigMag' else 0
+            bw = b.v if type(b).__name__ == 'BigMag' else 0
+            if not is_sym(av) and not is_sym(bw) and av == bw:
+                return a
+            cls = type(a) if type(a).__name__ == 'BigMag' else type(b)
+            return cls(z3.If(c, bv(av, BIGW), bv(bw, BIGW)))
         if a.obj != b.obj or not Ptr(a.obj, a.path) == Ptr(b.obj, b.path):
             if a.obj is None and is_zero_len(b):
                 pass
